@@ -253,7 +253,7 @@ def gen_order_cases(rng, tier):
         proto = xyz + [(("u", ns, "attr"), "I/0/9")]
         calls += [("PC", "pc", proto), ("PT", [ONE, ONE, TWO, "i4"]), ("PFIN",), ("PDROP",)] + F
         cases.append(("order:extension-name", calls))
-    for url in wapi.RESERVED_URLS + ("http://www.w3.org/XML/1998/namespace/", "", "http://a?b=1&c=<2>\"'"):
+    for url in wapi.FORBIDDEN_URLS + ("http://www.w3.org/XML/1998/namespace/", "http://www.astm.org/COMMIT/E57/2010-e57-v1.0/", "http://a?b=1&c=<2>\"'"):
         cases.append(("order:extension-url", N + [("EXT", "e1", url), ("EXT", "e2", url), ("PC", "pc", xyz + [(("u", "e1", "a"), "D"), (("u", "e2", "b"), "D")]),
                                                    ("PT", [ONE, ONE, TWO, HALF, ONE]), ("PFIN",), ("PDROP",)] + F))
     for nm in ("9a", "-a", "a9", "_a", "a-", "0", "-"):
@@ -367,7 +367,9 @@ def run(rep, tier, rng, replay=None):
                        "every documented prototype rule violated alone and in pairs on four base prototypes, lonely flags, extension names (xml prefixes, empty, dots, umlauts, unregistered), "
                        "prototypes at the packet-capacity limits (5910..5912 and 6000 double records, 20808..21678 and 30000 narrow records, all-zero-width), out-of-range integers "
                        "of widths 1..64 inserted after 0..8 valid points (every bit phase), mistyped values after valid coordinates, wrong arity, i64 extremes, NaN/inf, min > max, "
-                       "abandoned point-cloud and image writers, repeated finalize of every writer, calls after finalize, projections set twice, limit overrides, all setters, random walks. "
+                       "abandoned point-cloud and image writers, limit overrides, all setters, random walks; regression probes for the four repaired defect classes: finalize twice and "
+                       "sections added after finalize (must be rejected, the file keeps what it had), a sub-writer finalized twice or used after its finalize (rejected), "
+                       "a duplicated index attribute of another type (prototype rejected). "
                        "Direct oracles: no panic; every accepted call is representable under an independent reading of the documented rules; whenever the last call is a successful finalize "
                        "the file opens and contains exactly the finished point clouds with exactly the accepted points (bit for bit), bounds of the accepted points only, all blobs and image payloads. "
                        "Correspondence: result class of every call, every device byte, operation count and write log, and the reader's descriptors against the model's writer state. "
